@@ -28,6 +28,7 @@ def stageOf : String → Option (BStage Nat)
   | "pass" => some (.priv (unitS fun x => [x]))
   | "drop" => some (.priv (unitS fun x => if x % 2 == 0 then [] else [x]))
   | "dup" => some (.priv (unitS fun x => [x, x + 1000]))
+  | "twice" => some (.priv (unitS fun x => [x, x]))      -- the README template: the event and an equal copy
   | "expand" => some (.priv (unitS fun x => [x + 2000, x, x + 3000]))
   | "dropall" => some (.priv (unitS fun _ => []))
   | "hold" => some (.priv holdS)
